@@ -20,7 +20,7 @@ KINDS = ("boxcar", "gaussian", "lorentzian")
 
 
 def REQUIRED(tier):
-    return ["responses_compared", "argmax_checks", "invariance_checks", "boxcar_recoveries", "kind:boxcar", "kind:gaussian", "kind:lorentzian", "len:not_fft_good", "pulse:wraps_around_end", "kernel_direct_unsorted_bank", "long_series", "regime:uncentred_data_with_baseline", "invariance:offset_with_centring_off", "construction_after_refused_one"]
+    return ["responses_compared", "argmax_checks", "invariance_checks", "boxcar_recoveries", "kind:boxcar", "kind:gaussian", "kind:lorentzian", "len:not_fft_good", "pulse:wraps_around_end", "kernel_direct_unsorted_bank", "long_series", "regime:uncentred_data_with_baseline", "invariance:offset_with_centring_off", "construction_after_refused_one", "regime:baseline_1e5_times_noise", "input_buffer_reused_after_construction"]
 
 
 def cases(tier, seed):
@@ -272,9 +272,13 @@ def _long(case, ctx, rng):
     loc_m = str(rng.choice(["median", "norm", "mean"]))
     scale_m = str(rng.choice(["iqr", "mad", "std"]))
     offset = float(rng.choice([0.0, 1e3, 1e4]))
-    x = (rng.normal(size=n) + offset).astype(np.float32)
+    sigma = 1.0
+    if case["seed"] % 4 == 1:   # a baseline 10^5..10^6 times the noise level, noise sigma far from 1 (still well resolved in single precision)
+        sigma, offset = [(0.05, 2.0e4), (0.35, 5.0e5), (0.05, -2.0e4)][case["seed"] // 4 % 3]
+        ctx.count("regime:baseline_1e5_times_noise")
+    x = (rng.normal(size=n) * sigma + offset).astype(np.float32)
     pos, w = int(rng.integers(0, n)), int(rng.integers(1, nbmax))
-    x[(pos + np.arange(w)) % n] += np.float32(rng.uniform(5, 15))
+    x[(pos + np.arange(w)) % n] += np.float32(rng.uniform(5, 15) * sigma)
     one = dict(case, params={"n": n, "kind": kind, "nbins_max": nbmax, "spacing": spacing, "pos": pos, "w": w, "offset": offset, "loc": loc_m, "scale": scale_m})
     ctx.evaluated(); ctx.count("long_series"); ctx.count(f"kind:{kind}")
     opts = dict(loc_method=loc_m, scale_method=scale_m, temp_kind=kind, nbins_max=nbmax, spacing_factor=spacing)
@@ -305,14 +309,18 @@ def _boxcar(case, ctx, rng):
     nbmax = int(rng.choice([8, 16, 32]))
     spacing = float(rng.choice([1.5, 2.0]))
     widths = [int(w) for w in MatchedFilter.get_box_width_spacing(nbmax, spacing)]
+    buf = np.zeros(n, dtype=np.float32)     # one work buffer reused for every profile, cleared as soon as the filter has been built
     for w in widths:
         for start in (0, 1, n // 3, n - w):
-            x = np.zeros(n, dtype=np.float32)
-            x[start : start + w] = 1.0
+            buf.fill(0)
+            buf[start : start + w] = 1.0
+            x = buf
             one = dict(case, params={"n": n, "nbins_max": nbmax, "spacing": spacing, "w": w, "start": start})
             ctx.evaluated(); ctx.count("boxcar_recoveries")
             try:
                 mf = MatchedFilter(x, temp_kind="boxcar", nbins_max=nbmax, spacing_factor=spacing)
+                buf.fill(-3.0)              # the caller's array changes after construction: the filter describes the data it was given
+                ctx.count("input_buffer_reused_after_construction")
             except Exception as exc:  # noqa: BLE001
                 ctx.violation(f"boxcar-raised:{type(exc).__name__}@{exc_site(exc)}", fmt_exc(exc), one)
                 return
